@@ -11,6 +11,9 @@ from ..gfi.common import run_for
 def run(chk, prog):
     n, obs = run_for(chk, prog, "C02", ALL)
     chk.floor("obligations tagged C02", n, 55)
+    # "any program" includes partially applied closures: their assess / simulate paths (stored + given arguments, in that order) - shared with C32
+    from ._share import take
+    take(chk, prog, "C32", lambda o: ".assess" in o["instance"] or ".simulate" in o["instance"], "closure obligations on the assess / simulate paths (from C32)", 2)
     chk.explanation = "structural-induction obligations for C02: scores are sums of inner scores exactly once (SCORE-AGG, SCORE-GATE, base logpdf); each inner GFI call is an opaque atom (induction hypothesis), the derived provenance terms / linear forms are compared with the oracle table"
     for o in [o for o in obs.items if "C02" in o["props"]][:6]:
         chk.sample({"rule": o["rule"], "instance": o["instance"], "derived": o["derived"][:200], "expected": o["expected"][:160]})
